@@ -48,6 +48,7 @@ import (
 	"github.com/functionx/fx-core/v8/testutil/helpers"
 	fxtypes "github.com/functionx/fx-core/v8/types"
 	crosschaintypes "github.com/functionx/fx-core/v8/x/crosschain/types"
+	erc20types "github.com/functionx/fx-core/v8/x/erc20/types"
 	ethtypes "github.com/functionx/fx-core/v8/x/eth/types"
 	fxgovtypes "github.com/functionx/fx-core/v8/x/gov/types"
 	fxstakingtypes "github.com/functionx/fx-core/v8/x/staking/types"
@@ -125,6 +126,13 @@ func setup(t *testing.T) *env {
 			t.Fatal(err)
 		}
 		return id
+	}
+	// coins that belong to nobody's call: residual balances on the precompile accounts (a plain bank transfer is enough to
+	// create them) and on the module accounts the crosschain methods route coins through
+	s.MintToken(e.cross.Bytes(), sdk.NewCoin(fxtypes.DefaultDenom, sdkmath.NewInt(777_000)))
+	s.MintToken(e.staking.Bytes(), sdk.NewCoin(fxtypes.DefaultDenom, sdkmath.NewInt(555_000)))
+	for _, m := range []string{evmtypes.ModuleName, erc20types.ModuleName, ethtypes.ModuleName} {
+		s.MintTokenToModule(m, sdk.NewCoin(fxtypes.DefaultDenom, sdkmath.NewInt(333_000)))
 	}
 	e.xTx = []uint64{pool(e.x.Bytes()), pool(e.x.Bytes()), pool(e.x.Bytes())}
 	e.vTx = []uint64{pool(e.victim.AccAddress()), pool(e.victim.AccAddress()), pool(e.victim.AccAddress())}
@@ -303,6 +311,7 @@ type callSpec struct {
 	value  *big.Int
 	writer bool
 	moved  *big.Int // shares moved from the victim (transferFromShares)
+	vclass string   // payable methods: how msg.value relates to what the arguments ask for
 }
 
 func (e *env) calls(rng *rand.Rand, victim common.Address) []callSpec {
@@ -344,6 +353,32 @@ func (e *env) calls(rng *rand.Rand, victim common.Address) []callSpec {
 		mk(e.cross, false, nil, "hasOracle", ethtypes.ModuleName, victim),
 	}
 	list[6].moved, list[7].moved, list[8].moved = tfs, tfs, tfs
+	// value-carrying calls: msg.value below / equal / above what the arguments ask the method to take
+	b32 := fxtypes.MustStrToByte32(ethtypes.ModuleName)
+	cc := func(class string, value, amount, fee int64) {
+		c := mk(e.cross, true, big.NewInt(value), "crossChain", common.Address{}, ext, big.NewInt(amount), big.NewInt(fee), b32, "")
+		c.vclass = class
+		list = append(list, c)
+	}
+	a := int64(500 + rng.Intn(500))
+	cc("value=amount+fee", a+10, a, 10)
+	cc("value=amount+fee-1", a+9, a, 10)
+	cc("value=amount+fee+1", a+11, a, 10)
+	cc("value=1,amount=residual-balance", 1, 777_000, 1)
+	cc("value=1,amount=part-of-residual", 1, int64(1000+rng.Intn(5000)), 1)
+	cc("value>>amount+fee", 50_000, a, 10)
+	cc("value=fee,amount>0", 10, a, 10)
+	ibf := func(class string, value, fee int64, id uint64) {
+		c := mk(e.cross, true, big.NewInt(value), "increaseBridgeFee", ethtypes.ModuleName, new(big.Int).SetUint64(id), common.Address{}, big.NewInt(fee))
+		c.vclass = class
+		list = append(list, c)
+	}
+	ibf("value=fee-1", 6, 7, e.xTx[1])
+	ibf("value=fee+1", 8, 7, e.xTx[1])
+	ibf("value=1,fee=large", 1, 5000, e.vTx[1])
+	bc := mk(e.cross, true, big.NewInt(int64(1+rng.Intn(3000))), "bridgeCall", ethtypes.ModuleName, victim, []common.Address{}, []*big.Int{}, victim, []byte{1}, big.NewInt(0), []byte{})
+	bc.vclass = "any"
+	list = append(list, bc)
 	return list
 }
 
@@ -384,6 +419,47 @@ func errKind(s string) string {
 		return "blocked:disabled"
 	default:
 		return "ran" // dispatched; the method itself returned an error
+	}
+}
+
+// passive holders: the precompile accounts themselves and the module accounts coins are routed through.  None of them is
+// ever the direct caller, so no call may reduce what they held before it.  For the crosschain (eth) module the coins that
+// back queued withdrawals are subtracted: cancelling one's own withdrawal legitimately releases exactly its escrow.
+type holder struct {
+	name   string
+	addr   common.Address
+	escrow bool
+}
+
+func (e *env) passiveHolders() []holder {
+	return []holder{
+		{"the staking precompile account " + e.staking.Hex(), e.staking, false},
+		{"the crosschain precompile account " + e.cross.Hex(), e.cross, false},
+		{"module account evm", common.BytesToAddress(authtypes.NewModuleAddress(evmtypes.ModuleName)), false},
+		{"module account erc20", common.BytesToAddress(authtypes.NewModuleAddress(erc20types.ModuleName)), false},
+		{"module account eth (balance minus escrow of queued withdrawals)", common.BytesToAddress(authtypes.NewModuleAddress(ethtypes.ModuleName)), true},
+	}
+}
+
+func (e *env) holderFunds(ctx sdk.Context) []*big.Int {
+	var out []*big.Int
+	for _, h := range e.passiveHolders() {
+		b := e.s.App.BankKeeper.GetBalance(ctx, h.addr.Bytes(), fxtypes.DefaultDenom).Amount.BigInt()
+		if h.escrow {
+			for _, tx := range e.s.App.EthKeeper.GetUnbatchedTransactions(ctx) {
+				b = new(big.Int).Sub(b, tx.Token.Amount.Add(tx.Fee.Amount).BigInt())
+			}
+		}
+		out = append(out, b)
+	}
+	return out
+}
+
+func (e *env) compareHolders(out *hx.Out, before, after []*big.Int, desc string) {
+	for i, h := range e.passiveHolders() {
+		if after[i].Cmp(before[i]) < 0 {
+			violate(out, fmt.Sprintf("coins of a non-caller (%s) reduced by %s (%s -> %s): %s", h.name, new(big.Int).Sub(before[i], after[i]), before[i], after[i], desc))
+		}
 	}
 }
 
@@ -456,6 +532,9 @@ func phaseDispatch(t *testing.T, e *env, rng *rand.Rand, out *hx.Out) {
 					if w.class != "none" && kind != evmx.KCall && rng.Intn(4) != 0 {
 						continue
 					}
+					if cs.vclass != "" && (w.class != "none" || kind != evmx.KCall) && rng.Intn(8) != 0 {
+						continue
+					}
 					var allowances []*big.Int
 					if cs.moved == nil {
 						allowances = []*big.Int{nil}
@@ -484,6 +563,7 @@ func phaseDispatch(t *testing.T, e *env, rng *rand.Rand, out *hx.Out) {
 						before := e.dump(cctx)
 						pv := e.portfolioOf(cctx, victim, spenders)
 						po := e.portfolioOf(cctx, origin, spenders)
+						hb := e.holderFunds(cctx)
 						tx, err := evmx.SignedTx(cctx, app, e.signer, e.x, nil, nil, 3_000_000, warm)
 						if err != nil {
 							t.Fatal(err)
@@ -540,6 +620,10 @@ func phaseDispatch(t *testing.T, e *env, rng *rand.Rand, out *hx.Out) {
 						}
 						comparePortfolios(out, "third party", pv, pa, mv, 0, succeeded, desc)
 						comparePortfolios(out, "tx origin", po, poa, mo, 0, succeeded, desc)
+						e.compareHolders(out, hb, e.holderFunds(cctx), fmt.Sprintf("%s msg.value=%v", desc, cs.value))
+						if cs.vclass != "" {
+							out.Count("dispatch:value:" + cs.method + ":" + cs.vclass + ":" + map[bool]string{true: "ok", false: "err"}[succeeded])
+						}
 					}
 				}
 			}
@@ -615,6 +699,7 @@ func phaseMalformed(t *testing.T, e *env, rng *rand.Rand, out *hx.Out) {
 				}
 				before := e.dump(cctx)
 				pv := e.portfolioOf(cctx, victim, spenders)
+				hb := e.holderFunds(cctx)
 				tx, err := evmx.SignedTx(cctx, app, e.signer, e.x, nil, nil, 3_000_000, warm)
 				if err != nil {
 					t.Fatal(err)
@@ -640,6 +725,7 @@ func phaseMalformed(t *testing.T, e *env, rng *rand.Rand, out *hx.Out) {
 					violate(out, "malformed precompile input changed Cosmos stores "+fmt.Sprint(changed)+": "+desc)
 				}
 				comparePortfolios(out, "third party", pv, e.portfolioOf(cctx, victim, spenders), nil, 0, false, desc)
+				e.compareHolders(out, hb, e.holderFunds(cctx), desc)
 			}
 		}
 	}
@@ -703,7 +789,9 @@ func hStatus(errText string) string {
 
 func phaseHistory(t *testing.T, e *env, rng *rand.Rand, out *hx.Out) {
 	app := e.s.App
-	accts := []acct{{1, e.x, nil}, {2, e.y, nil}, {3, e.signer.Address(), e.signer}, {4, e.victim.Address(), e.victim}, {5, e.other, nil}}
+	// 6 and 7: the precompile accounts themselves, passive holders (never callers, never picked as from / to / spender)
+	accts := []acct{{1, e.x, nil}, {2, e.y, nil}, {3, e.signer.Address(), e.signer}, {4, e.victim.Address(), e.victim}, {5, e.other, nil},
+		{6, e.staking, nil}, {7, e.cross, nil}}
 	byID := map[int]acct{}
 	var addrs []common.Address
 	for _, a := range accts {
@@ -761,12 +849,17 @@ func phaseHistory(t *testing.T, e *env, rng *rand.Rand, out *hx.Out) {
 			out.Emit(fmt.Sprintf("set bal %d %s", a.id, app.BankKeeper.GetBalance(cctx, a.addr.Bytes(), fxtypes.DefaultDenom).Amount), "ok")
 		}
 		var poolIDs []uint64
+		maxID := uint64(0)
 		for _, tx := range app.EthKeeper.GetUnbatchedTransactions(cctx) {
 			if id, ok := idOfBech[tx.Sender]; ok {
 				out.Emit(fmt.Sprintf("set pool %d %d %s", tx.Id, id, tx.Token.Amount.Add(tx.Fee.Amount)), "ok")
 				poolIDs = append(poolIDs, tx.Id)
 			}
+			if tx.Id > maxID {
+				maxID = tx.Id
+			}
 		}
+		out.Emit(fmt.Sprintf("set nextid %d", maxID+1), "ok")
 		// ghost: approved amount and moved total per (owner, spender) since the last approval
 		type pair struct{ o, s int }
 		approved := map[pair]*big.Int{}
@@ -871,7 +964,16 @@ func phaseHistory(t *testing.T, e *env, rng *rand.Rand, out *hx.Out) {
 				case "increaseBridgeFee":
 					to = e.cross
 					value = num(1)
-					data, _ = cabi.Pack(method, ethtypes.ModuleName, num(0), common.Address{}, value)
+					if len(args) > 2 {
+						value = num(2)
+					} else {
+						argStr += " " + value.String()
+					}
+					data, _ = cabi.Pack(method, ethtypes.ModuleName, num(0), common.Address{}, num(1))
+				case "crossChain":
+					to = e.cross
+					value = num(2)
+					data, _ = cabi.Pack(method, common.Address{}, helpers.GenExternalAddr(ethtypes.ModuleName), num(0), num(1), fxtypes.MustStrToByte32(ethtypes.ModuleName), "")
 				case "view":
 					if argStr == "allowanceShares" {
 						data, _ = sabi.Pack("allowanceShares", v0, byID[4].addr, byID[1].addr)
@@ -919,7 +1021,7 @@ func phaseHistory(t *testing.T, e *env, rng *rand.Rand, out *hx.Out) {
 				var grants []grant
 				for _, o := range accts {
 					for _, sp := range accts[:4] {
-						if allowOf(o.id, sp.id).Sign() > 0 {
+						if o.id <= 5 && allowOf(o.id, sp.id).Sign() > 0 {
 							grants = append(grants, grant{o.id, sp.id})
 						}
 					}
@@ -1002,14 +1104,47 @@ func phaseHistory(t *testing.T, e *env, rng *rand.Rand, out *hx.Out) {
 				}
 				data, _ = cabi.Pack(method, ethtypes.ModuleName, new(big.Int).SetUint64(id))
 				argStr = fmt.Sprint(id)
-			case roll < 96 && len(poolIDs) > 0:
+			case roll < 94 && len(poolIDs) > 0:
 				method = "increaseBridgeFee"
 				to = e.cross
 				id := poolIDs[rng.Intn(len(poolIDs))]
-				fee := big.NewInt(int64(1 + rng.Intn(9)))
+				fee := big.NewInt(int64(2 + rng.Intn(9)))
 				value = fee
+				vc := "value=fee"
+				switch rng.Intn(8) {
+				case 0:
+					value, vc = plus(fee, -1), "value<fee"
+				case 1:
+					value, vc = plus(fee, 1), "value>fee"
+				case 2:
+					fee, value, vc = app.BankKeeper.GetBalance(cctx, e.cross.Bytes(), fxtypes.DefaultDenom).Amount.BigInt(), big.NewInt(1), "value=1,fee=residual-balance"
+				}
+				out.Count("hist:value:increaseBridgeFee:" + vc)
 				data, _ = cabi.Pack(method, ethtypes.ModuleName, new(big.Int).SetUint64(id), common.Address{}, fee)
-				argStr = fmt.Sprintf("%d %s", id, fee)
+				argStr = fmt.Sprintf("%d %s %s", id, fee, value)
+			case roll < 98:
+				method = "crossChain"
+				to = e.cross
+				amt, fee := big.NewInt(int64(100+rng.Intn(5000))), big.NewInt(int64(1+rng.Intn(20)))
+				sum := new(big.Int).Add(amt, fee)
+				value = sum
+				vc := "value=amount+fee"
+				residual := app.BankKeeper.GetBalance(cctx, e.cross.Bytes(), fxtypes.DefaultDenom).Amount.BigInt()
+				switch rng.Intn(10) {
+				case 0:
+					value, vc = plus(sum, -1), "value<amount+fee"
+				case 1:
+					value, vc = plus(sum, 1), "value>amount+fee"
+				case 2:
+					amt, value, vc = residual, fee, "value=fee,amount=residual-balance"
+				case 3:
+					amt, fee, value, vc = new(big.Int).Rsh(residual, uint(1+rng.Intn(4))), big.NewInt(1), big.NewInt(1), "value=1,amount=part-of-residual"
+				case 4:
+					value, vc = new(big.Int).Mul(sum, big.NewInt(10)), "value>>amount+fee"
+				}
+				out.Count("hist:value:crossChain:" + vc)
+				data, _ = cabi.Pack(method, common.Address{}, helpers.GenExternalAddr(ethtypes.ModuleName), amt, fee, fxtypes.MustStrToByte32(ethtypes.ModuleName), "")
+				argStr = fmt.Sprintf("%s %s %s", amt, fee, value)
 			default:
 				method = "view"
 				if rng.Intn(2) == 0 {
@@ -1073,6 +1208,7 @@ func phaseHistory(t *testing.T, e *env, rng *rand.Rand, out *hx.Out) {
 				}
 			}
 			dumpBefore := e.dump(cctx)
+			holdersBefore := e.holderFunds(cctx)
 			tr := evmx.NewTracer()
 			var res *evmtypes.MsgEthereumTxResponse
 			desc := fmt.Sprintf("method=%s(%s) kind=%s route=%s step=%d", method, argStr, kind, rt.name, k)
@@ -1110,7 +1246,7 @@ func phaseHistory(t *testing.T, e *env, rng *rand.Rand, out *hx.Out) {
 				obs = fmt.Sprintf("al=%s sa=%s sb=%s", allowOf(f, caller.id), sharesOf(f), sharesOf(toID))
 			case "delegateV2", "undelegateV2", "withdraw":
 				obs = fmt.Sprintf("sa=%s", sharesOf(caller.id))
-			case "cancelSendToExternal", "increaseBridgeFee":
+			case "cancelSendToExternal", "increaseBridgeFee", "crossChain":
 				var parts []string
 				txs := app.EthKeeper.GetUnbatchedTransactions(cctx)
 				sort.Slice(txs, func(i, j int) bool { return txs[i].Id < txs[j].Id })
@@ -1122,6 +1258,18 @@ func phaseHistory(t *testing.T, e *env, rng *rand.Rand, out *hx.Out) {
 				obs = "pool=" + strings.Join(parts, ",")
 				if len(parts) == 0 {
 					obs = "pool=-"
+				}
+				obs += " pb=" + app.BankKeeper.GetBalance(cctx, e.cross.Bytes(), fxtypes.DefaultDenom).Amount.String()
+				if method == "crossChain" && succeeded {
+					for _, p := range txs {
+						known := false
+						for _, id := range poolIDs {
+							known = known || id == p.Id
+						}
+						if !known {
+							poolIDs = append(poolIDs, p.Id)
+						}
+					}
 				}
 			default:
 				obs = "-"
@@ -1155,6 +1303,7 @@ func phaseHistory(t *testing.T, e *env, rng *rand.Rand, out *hx.Out) {
 				}
 				comparePortfolios(out, who, before[a.id], e.portfolioOf(cctx, a.addr, addrs), mv, caller.id-1, succeeded, desc)
 			}
+			e.compareHolders(out, holdersBefore, e.holderFunds(cctx), fmt.Sprintf("%s msg.value=%v", desc, value))
 			// history ghost: approved - Σ moved = allowance now
 			if succeeded && method == "approveShares" {
 				p := pair{caller.id, approveSp}
@@ -1178,7 +1327,6 @@ func phaseHistory(t *testing.T, e *env, rng *rand.Rand, out *hx.Out) {
 					delete(approved, p)
 				}
 			}
-			_ = poolIDs
 		}
 	}
 }
